@@ -10,7 +10,7 @@ block = [stmt...]; stmt (JSON lists):
  ["spawn", group, child, how, body]                       how: "soon" | "create"
  ["start", group, child, spec]                            await tg.start(child_fn) with a scripted child
  ["catch", what, body, handler, shielded, after]          what: "cancel"|"any"; after: reraise|swallow|boom|wrap
- ["raise", n] | ["return", v] | ["probe"]
+ ["raise", n] | ["return", v] | ["probe"] | ["native", child]     (Task.cancel() of another child's task)
  ["ntimeout", d, body]                                    async with asyncio.timeout(d)
  ["ntg", d|None, body]                                    async with asyncio.TaskGroup() + a child failing at t0+d
 ext action: ["cancel", name] | ["set", ev] | ["native", child]
@@ -107,6 +107,7 @@ class ChildInfo:
         self.started_called = 0
         self.start_site = None     # dict describing what start() did at the call site
         self.native_cancelled = False
+        self.native_exempt = False
 
 
 class World:
@@ -203,6 +204,20 @@ class World:
                 ci.native_cancelled = True
                 self.native_targets.add(ci.task)
                 self.stats["native_cancel"] += 1
+                # undecided by the statement (AnyIO documents treating such chained cancellations as its own): the
+                # native cancellation lands while the task handles an AnyIO cancellation, or while an AnyIO
+                # cancellation travels through the __aexit__ of a group the task hosts
+                ci.native_exempt = self.in_cancel_handler_at(ci.task, self.loop.time()) or any(
+                    gi.mirror.host is ci.task and not gi.exited and getattr(gi, "body_exc", None) is not None
+                    and any(is_anyio_cancel(e) for e in leaves(gi.body_exc)) for gi in self.groups.values())
+                waiter = getattr(ci.task, "_fut_waiter", None)
+                if waiter is not None and waiter.done():
+                    # asyncio itself merges this request into the cancellation already under way (the task wakes up
+                    # with that one CancelledError, carrying the first message): no native exception will exist
+                    ci.native_exempt = True
+                if any(gi.mirror.host is ci.task and not gi.exited and getattr(gi, "body_done_cycle", None) is not None
+                       for gi in self.groups.values()):
+                    self.stats["native_cancel_at_group_join"] += 1
                 ci.task.cancel()
 
     def cancel_name(self, name, origin):
@@ -340,7 +355,11 @@ class World:
         elif k == "return":
             raise _Return(st[1])
         elif k == "probe":
-            pass
+            anyio.get_current_task().has_pending_cancellation()
+        elif k == "native":
+            tci = self.children.get(st[1])
+            if tci is not None and tci.task is not task:
+                self.do_external(["native", st[1]])
         elif k == "scope":
             await self.run_scope(st, ms)
         elif k == "group":
@@ -689,6 +708,10 @@ class World:
             raise
         finally:
             ci.end_cycle = self.cycle()
+            if ci.native_cancelled and not ci.native_exempt and ci.ended is not None and ci.ended[0] == "return":
+                self.bad("c04:native-cancellation-swallowed", "",
+                         f"task {ci.name} was cancelled natively (Task.cancel()) outside any cancellation handler, "
+                         f"handles no native cancellation itself, yet returned normally: {ci.ended!r}")
             if ci.group.exited:
                 self.bad("c01:child-outlived-group", ci.how,
                          f"child {ci.name} ended at cycle {ci.end_cycle}, after group {ci.group.name} exited at "
@@ -883,8 +906,9 @@ class World:
                         try:
                             for _ in range(k3):
                                 await self.op("yield", hm, anyio.lowlevel.checkpoint)
-                        except asyncio.CancelledError:
-                            pass
+                        except asyncio.CancelledError as e2:
+                            if not is_anyio_cancel(e2):
+                                raise
                 if mode == "reraise":
                     raise
                 if mode == "boom":
@@ -951,7 +975,7 @@ class _Return(Exception):
         self.value = value
 
 
-STAT_KEYS = ["deadline_reassigned", "native_cancel", "cancel_external", "cancel_self", "cancel_sibling", "cancel_handle",
+STAT_KEYS = ["deadline_reassigned", "native_cancel", "native_cancel_at_group_join", "cancel_external", "cancel_self", "cancel_sibling", "cancel_handle",
              "op_entered_cancelled", "interrupted_after_blocking", "guard_fired", "shield_toggled", "absorbed",
              "propagated", "exit_with_cancellation_in_flight", "residue_checked", "caught", "native_timeout",
              "native_timeout_fired", "native_taskgroup", "spawn_into_cancelled_group", "group_waited_for_children",
